@@ -1,5 +1,6 @@
 Require Extraction.
 Require Import ExtrOcamlBasic.
-From LedgerV Require Import Base.Prelude Base.Round Base.ExtractHelpers Model.Amount Model.AmountText.
+From LedgerV Require Import Base.Prelude Base.Round Base.ExtractHelpers Model.Amount Model.AmountText Model.DecimalComma.
 Extraction "model_C04.ml" h_add h_mul h_div h_mod h_opp h_ltb h_eqb h_qred h_qmake h_qnum h_qden
-  split_amount parse_amount_text learn learn_f fix_format amount_text amount_text_col value_column_text amt_div amt_mul amt_neg roundto_scaled print_scaled.
+  split_amount parse_amount_text learn learn_f fix_format amount_text amount_text_col value_column_text amt_div amt_mul amt_neg roundto_scaled print_scaled
+  reader_dc session_style amount_text_session value_column_text_session parse_amount_text_session.
